@@ -1247,10 +1247,10 @@ func Gen(r *core.Rng, tier string) ([]core.In[Input], bool) {
 	}
 	g.served = false
 	// windows: deliveries while the binding's events are still locked, Synchronization runs, the unlock (see win.go)
-	nwin := 90
+	nwin := 80
 	switch tier {
 	case "thorough":
-		nwin = 3000
+		nwin = 2000
 	case "search":
 		nwin = 1500
 	}
